@@ -50,7 +50,6 @@ def whyS (c : ClassD) : Stmt → List String
   | .mtch subj ch => whyV c subj ++ tagIf (!(exact c subj)) "narrow-subject" ++ whyS c ch
   | .arm v g body rest => tagIf g.isSome "case-guard" ++ (match g with | some ge => whyC c ge | none => []) ++
       whyV c v ++ tagIf (!(exact c v)) "narrow-subject" ++ whyS c body ++ whyS c rest
-  | .dflt .skip => ["match-no-default"]
   | .dflt body => whyS c body
 
 def whyClass (c : ClassD) : List String :=
